@@ -183,6 +183,7 @@ def check_call(fq, args, kwargs=None, contract=None, fn=None):
         ba = inspect.signature(fn).bind(*args, **kwargs)
     except TypeError as e:
         return {"status": "skip", "why": "arguments do not bind: %s" % e}
+    explicit = set(ba.arguments)      # a typing that leaves a parameter out is about calls that leave the argument out
     ba.apply_defaults()
     env = dict(ba.arguments)
     ptypes = c.get("params") or {}
@@ -190,7 +191,7 @@ def check_call(fq, args, kwargs=None, contract=None, fn=None):
     if bad and c.get("variants"):
         for var in c["variants"]:
             vt = var.get("params") or {}
-            if all(p not in env or type_ok(env[p], t) for p, t in vt.items()):
+            if all(p not in env or type_ok(env[p], t) for p, t in vt.items()) and (not vt or explicit <= set(vt)):
                 bad = []
                 c = dict(c)
                 c.pop("variants")
@@ -211,7 +212,7 @@ def check_call(fq, args, kwargs=None, contract=None, fn=None):
         # variants may also differ by precondition (same argument kinds, another state of the receiver)
         for var in c["variants"]:
             vt = var.get("params") or {}
-            if all(p not in env or type_ok(env[p], t) for p, t in vt.items()):
+            if all(p not in env or type_ok(env[p], t) for p, t in vt.items()) and (not vt or explicit <= set(vt)):
                 cc = dict(c)
                 cc.pop("variants")
                 cc.update(var)
